@@ -657,6 +657,12 @@ func (vc *VC) evalCall(e *SExpr, env *Env) *Val {
 				vc.evalFail(env, "old() not available here")
 			}
 			return vc.eval(args[0], env.inState(env.old))
+		case "locked":
+			// the value of an expression right after the latest lock acquisition
+			if vc.lockedSt == nil {
+				vc.evalFail(env, "locked() used where no lock has been acquired")
+			}
+			return vc.eval(args[0], env.inState(vc.lockedSt))
 		case "len":
 			x := vc.eval(args[0], env)
 			switch u := x.Ty.Underlying().(type) {
@@ -679,6 +685,14 @@ func (vc *VC) evalCall(e *SExpr, env *Env) *Val {
 		case "off":
 			x := vc.eval(args[0], env)
 			return &Val{T: fmt.Sprintf("(s_off %s)", x.T), Ty: MathInt}
+		case "wrap":
+			// wrap(x, T): x reduced to the range of integer type T as Go does
+			x := vc.eval(args[0], env)
+			tv := vc.eval(args[1], env)
+			if !tv.IsType || tv.TypeV == nil {
+				vc.evalFail(env, "wrap needs an integer type")
+			}
+			return &Val{T: vc.wrapInt(x.T, tv.TypeV), Ty: MathInt}
 		case "raw":
 			// raw(s, j): element j (absolute index) of the backing array of slice s
 			x := vc.eval(args[0], env)
